@@ -86,6 +86,10 @@ scen("C13", "worktree", "tracked-file-ignored-later-is-still-reported", INIT + [
      "a tracked file matching an ignore entry written later was not reported as modified")
 scen("C07", "diff", "file-staged-where-head-has-directory", INIT + [w("a/b", "1"), w("k", "k"), g("add", "a", "k"), g("commit", "-m", "one"), g("rm", "a/b"), rmdir("a"), w("a", "file"), g("add", "a"), g("status"), g("commit", "-m", "two"), g("status")],
      "a staged file was not listed as 'new file' when HEAD holds a directory of that name")
+scen("C04", "stage", "lexical-only-spelling-does-not-unstage", INIT + [w("f", "1"), w("g", "2"), w("d/x", "3"), g("add", "f", "g", "d"), g("add", "f/"), g("add", "nosuchdir/../f", "g/../f"), g("add", "d/x/."), g("status")],
+     "add f/ (and nosuch/../f, g/../f) removed the existing, unchanged tracked file f from the staging area")
+scen("C04", "stage", "rm-beneath-a-file", INIT + [w("a/b", "1"), w("x", "2"), w("y", "3"), g("add", "a", "x", "y"), rmdir("a"), w("a", "file now"), g("rm", "x", "a/b", "y"), g("status")],
+     "rm of a tracked path whose directory became a regular file failed with ENOTDIR after removing the arguments before it")
 print("pins written")
 
 # ---- C15 / C16 pins: points are selected by operation class of the fault-free run (at_op)
